@@ -251,7 +251,7 @@ func runVCase(c Case) (res runResult) {
 					violate(fmt.Sprintf("op %d: accepted a commitment for a scheduler that is not a primary worker", i))
 				}
 			}
-			res.coqObs = append(res.coqObs, fmt.Sprintf("(%d, noCh, %d, %s)", code, pool.HighestRank, coqout.Bool(pool.Discrepancy)))
+			res.coqObs = append(res.coqObs, fmt.Sprintf("(%d, noCh, %s, %s)", code, hrTerm(pool.HighestRank), coqout.Bool(pool.Discrepancy)))
 		case "proc", "probe":
 			res.coqOps = append(res.coqOps, fmt.Sprintf("%s %d %s", map[string]string{"proc": "VProc", "probe": "VProbe"}[o.K], o.Strag, coqout.Bool(o.Timeout)))
 			p := pool
@@ -328,7 +328,7 @@ func runVCase(c Case) (res runResult) {
 					}
 				}
 			}
-			res.coqObs = append(res.coqObs, fmt.Sprintf("(%d, %s, %d, %s)", code, chosen, p.HighestRank, coqout.Bool(p.Discrepancy)))
+			res.coqObs = append(res.coqObs, fmt.Sprintf("(%d, %s, %s, %s)", code, chosen, hrTerm(p.HighestRank), coqout.Bool(p.Discrepancy)))
 		}
 	}
 	var ranks []uint64
